@@ -298,6 +298,8 @@ partial def chainLoop (stdin : IO.FS.Stream) (s : State) (seen : List Str) (name
     match importG s (jsonG (exportG s)) with
     | none =>
       IO.println "< panic"
+      for d in dumpChain s seen ++ dumpQueries s named do
+        IO.println ("| " ++ d)
       chainLoop stdin s seen named
     | some s2 =>
       let same := dumpGenesis (exportG s2) == dumpGenesis (exportG s)
@@ -558,6 +560,8 @@ partial def anteLoop (stdin : IO.FS.Stream) (a : AState) : IO Unit := do
       match importG a.s (jsonG (exportG a.s)) with
       | none =>
         IO.println "< panic"
+        for d in dumpAnte a do
+          IO.println ("| " ++ d)
         anteLoop stdin a
       | some s2 =>
         let same := dumpGenesis (exportG s2) == dumpGenesis (exportG a.s)
